@@ -22,10 +22,13 @@ type State struct {
 	// snaps: ghost snapshots of the state right after the most recent call of a tracked callee
 	// (after(F, expr) in contracts); shared, never mutated
 	snaps map[string]*State
+	// havocID != 0: an unmodelled call (or a loop writing everything) happened on this path; heap
+	// arrays not touched since then are arbitrary (a per-havoc default array), not the entry heap
+	havocID int
 }
 
 func (s *State) clone() *State {
-	n := &State{guard: s.guard, heap: make(map[string]*Term, len(s.heap)), cells: make(map[*Cell]*Value, len(s.cells))}
+	n := &State{guard: s.guard, heap: make(map[string]*Term, len(s.heap)), cells: make(map[*Cell]*Value, len(s.cells)), havocID: s.havocID}
 	if len(s.snaps) > 0 {
 		n.snaps = make(map[string]*State, len(s.snaps))
 		for k, v := range s.snaps {
@@ -74,6 +77,20 @@ func (x *Exec) heapArr(st *State, key string, s *Sort) *Term {
 	if _, known := x.heapSort[key]; !known {
 		x.heapSort[key] = s
 		x.entryHeapFacts(key, s)
+	}
+	if st.havocID != 0 && !(len(key) > 2 && key[:2] == "G:" && x.keepGhost) {
+		// first read of this array after a havoc of everything: arbitrary contents
+		name := fmt.Sprintf("Hv%d_%s", st.havocID, key)
+		c := x.ctx.Const(name, s)
+		if !x.havocDefaults[name] {
+			if x.havocDefaults == nil {
+				x.havocDefaults = map[string]bool{}
+			}
+			x.havocDefaults[name] = true
+			x.heapTypeFacts(key, c)
+		}
+		st.heap[key] = c
+		return c
 	}
 	return x.ctx.Const("H0_"+key, s)
 }
@@ -441,6 +458,15 @@ func (x *Exec) mergeStates(sts []*State) *State {
 		guards = append(guards, s.guard)
 	}
 	out := &State{guard: x.name("g", Or(guards...)), heap: map[string]*Term{}, cells: map[*Cell]*Value{}}
+	out.havocID = sts[0].havocID
+	for _, s := range sts[1:] {
+		if s.havocID != out.havocID {
+			// paths with different histories: arrays no path has touched are arbitrary from here on
+			x.havocN++
+			out.havocID = 1000000 + x.havocN
+			break
+		}
+	}
 	keys := map[string]bool{}
 	for _, s := range sts {
 		for k := range s.heap {
